@@ -10,8 +10,9 @@ Hosts == { [host |-> "o.test", text |-> "o.test", labels |-> <<"o", "test">>, ki
 Paths == { [path |-> <<>>, emptypath |-> TRUE], [path |-> <<"">>, emptypath |-> FALSE], [path |-> <<"a", "b">>, emptypath |-> FALSE] }
 Queries == {"-", "q=1", ""}
 Users == {"-", "u", "u:p"}
-\* port as typed: 0 = absent, 1 = the scheme's default spelled out, other = that port
-PortTexts == {0, 1, 8081}
+\* port as typed: 0 = absent, 1 = the scheme's default spelled out, 2 = the OTHER scheme's default (https on 80,
+\* http on 443: not a default for this URL, so it must be named), other = that port
+PortTexts == {0, 1, 2, 8081}
 
 Proxies == {NoProxy} \cup
   { [sch |-> s, host |-> "proxy.test", labels |-> <<"proxy", "test">>, kind |-> "domain", port |-> p, user |-> u, emptypath |-> TRUE,
@@ -23,7 +24,7 @@ Init == /\ row \in [sch : {"http", "https"}, h : Hosts, pt : PortTexts, p : Path
 Next == ~done /\ done' = TRUE /\ UNCHANGED row
 Spec == Init /\ [][Next]_<<row, done>>
 
-typedPort == IF row.pt = 1 THEN DefaultPort(row.sch) ELSE row.pt
+typedPort == IF row.pt = 1 THEN DefaultPort(row.sch) ELSE IF row.pt = 2 THEN (IF row.sch = "https" THEN 80 ELSE 443) ELSE row.pt
 url == [sch |-> row.sch, host |-> row.h.host, hostText |-> row.h.text, labels |-> row.h.labels, kind |-> row.h.kind,
         port |-> NormPort(row.sch, typedPort), portText |-> typedPort, path |-> row.p.path, emptypath |-> row.p.emptypath,
         q |-> row.q, frag |-> row.frag, user |-> row.user]
